@@ -205,7 +205,8 @@ __CPROVER_requires(g.excl == H_NONE && g.my_shared == 0)        /* C18: a shared
 __CPROVER_requires(INV(self))
 __CPROVER_assigns(self->_occupied, self->_exclusive_mode, self->_shared_owners_count, g.my_shared)
 __CPROVER_ensures(g.my_shared == 1 && INV(self));
-int QEmpty(int* q) __CPROVER_assigns() __CPROVER_ensures(RET == 0 || RET == 1);
+unsigned char g_eq_empty, g_sq_empty;      /* ghost: is the exclusive / shared wait queue empty (nobody parked there) */
+int QEmpty(int* q) __CPROVER_requires(q == &g_m->_exclusive_queue || q == &g_m->_shared_queue) __CPROVER_assigns() __CPROVER_ensures(RET == (q == &g_m->_exclusive_queue ? g_eq_empty : g_sq_empty));
 unsigned GetRandNumber(unsigned n) __CPROVER_requires(n != 0) __CPROVER_assigns() __CPROVER_ensures(RET < n);
 '''
     for hn, ghost in (('LockHelper', 'g.excl = H_ME;'), ('SharedLockHelper', 'g.my_shared = 1;')):
@@ -244,12 +245,15 @@ void harness(void) { ghost_havoc(); SMutex* m; F(m); VF_CANARY("end"); }
     b = find_body(repo, D + 'shared_mutex.cpp', r'void\s+SharedMutex::unlock\s*\(\s*\)', 'fiber::SharedMutex::unlock')
     c = Rewriter('SharedMutex::unlock', pre=sh_rules).rewrite(b.text).replace('&self->self->', '&self->')
     src = SH + '''void unlock(SMutex* self)
-__CPROVER_requires(__CPROVER_is_fresh(self, sizeof(*self)) && INV(self) && g.excl == H_ME && g.notify_one == 0 && g.notify_all == 0)
+__CPROVER_requires(__CPROVER_is_fresh(self, sizeof(*self)) && INV(self) && g.excl == H_ME && g.notify_one == 0 && g.notify_all == 0 && g_eq_empty <= 1 && g_sq_empty <= 1)
 __CPROVER_assigns(self->_occupied, g.excl, g.notify_one, g.notify_all, g.notified_queue, g_m)
 /* unlock (exclusive): the lock is free and parked lockers are woken (all shared ones, or one exclusive one) */
 __CPROVER_ensures(INV(self) && g.excl == H_NONE && g.notify_one + g.notify_all == 1)
+/* C18: a blocked locker is woken when the lock becomes available: if anybody is parked on either queue, the notify goes to a queue somebody is parked on (a notify on an empty
+   queue wakes nobody and the parked fiber would sleep on a free lock) */
+__CPROVER_ensures((!g_eq_empty || !g_sq_empty) ==> (g.notified_queue == (void*)&self->_exclusive_queue ? !g_eq_empty : (g.notified_queue == (void*)&self->_shared_queue && !g_sq_empty)))
 { g_m = self; ''' + c + ''' g.excl = H_NONE; /* ghost epilogue */ }
-void harness(void) { ghost_havoc(); SMutex* m; unlock(m); if (g.notify_all) VF_CANARY("readers woken"); else VF_CANARY("one writer woken"); }
+void harness(void) { ghost_havoc(); g_eq_empty = nondet_uchar() & 1; g_sq_empty = nondet_uchar() & 1; SMutex* m; unlock(m); if (g.notify_all) VF_CANARY("readers woken"); else VF_CANARY("one writer woken"); }
 '''
     job('SharedMutex.unlock', b, src, 'unlock', ['QEmpty', 'GetRandNumber', 'NotifyOne', 'NotifyAll'], canaries=2)
     b = find_body(repo, D + 'shared_mutex.cpp', r'void\s+SharedMutex::unlock_shared\s*\(', 'fiber::SharedMutex::unlock_shared')
